@@ -5,7 +5,7 @@
 From Coq Require Import List ZArith QArith Bool.
 Import ListNotations.
 Require Import QV.C09.Model QV.C09.Corr QV.C09.Proofs QV.C09.Proofs2 QV.C09.Proofs3 QV.C09.Proofs4 QV.C09.Proofs5 QV.C09.Proofs6
-               QV.C09.Proofs6x QV.C09.Proofs7 QV.C09.Proofs7x QV.C09.Proofs8 QV.C09.ProofsR QV.C09.ProofsE QV.C09.Proofs9.
+               QV.C09.Proofs6x QV.C09.Proofs7 QV.C09.Proofs7x QV.C09.Proofs8 QV.C09.ProofsR QV.C09.ProofsE QV.C09.ProofsF QV.C09.Proofs9.
 
 (* every freshly constructed tree (Loop(...) with nested children, any counts / waveforms / measurements) satisfies Inv *)
 Theorem C09_init : forall t, sInv (init_state t).
@@ -206,7 +206,39 @@ Theorem C09_nonvacuous : forall w, sInv (leaf_state w) /\
 Proof. intros w; split; [apply leaf_state_inv|split; [exact I|reflexivity]]. Qed.
 Print Assumptions C09_nonvacuous.
 
+(* ---- fuel sufficiency (partial): on a state whose reachable part is a tree with correct links the depth of every live
+   node is below the heap size (pigeonhole), hence the fuel S (S (length h)) of `fueled` never runs out and no dangling
+   id is read in the three fueled primitives; for histories over setters and queries NOTHING has to be assumed --------- *)
+Theorem C09_depth_bound : forall h r P x d, InvExc h r P -> depth h r x d -> (d < length h)%nat.
+Proof. intros h r P x d I. apply (depth_lt h r P I). Qed.
+Print Assumptions C09_depth_bound.
+
+Theorem C09_fuel_invalidate : forall h r P x inc fuel, InvExc h r P -> reach h r x -> (length h < fuel)%nat ->
+  exists h', invalidate fuel x inc h = (h', R tt).
+Proof. intros h r P x inc fuel I. apply (invalidate_total h r P I). Qed.
+Print Assumptions C09_fuel_invalidate.
+
+Theorem C09_fuel_body_duration : forall h r P x fuel, InvExc h r P -> reach h r x -> (length h < fuel)%nat ->
+  exists h' q, body_duration fuel x h = (h', R q).
+Proof. intros h r P x fuel I. apply (body_duration_total h r P I). Qed.
+Print Assumptions C09_fuel_body_duration.
+
+Theorem C09_fuel_copy : forall h r P x np hc, InvExc h r P -> reach h r x ->
+  (forall y, (y < length h)%nat -> get hc y = get h y) -> (length h <= length hc)%nat ->
+  exists h' c, copy_tree_structure x np hc = (h', R c).
+Proof. intros h r P x np hc I. apply (copy_tree_structure_total h r P I). Qed.
+Print Assumptions C09_fuel_copy.
+
+Theorem C09_history_basic_total : forall ops s,
+  sInv s -> forallb basic_op ops = true -> run_ok s ops /\ sInv (run s ops).
+Proof. exact history_basic_total. Qed.
+Print Assumptions C09_history_basic_total.
+
 (* ---- still open ----------------------------------------------------------------------------------------------------- *)
+(* open: C09_history without the run_ok hypothesis (no ExFuel / ExDangling outcome on states satisfying Inv) for the
+   structural operations: the primitives are total (above), the threading through every operation is not done *)
+Definition C09_history_total_statement : Prop := forall ops s,
+  sInv s -> forallb guard_C09_args ops = true -> run_ok s ops /\ sInv (run s ops).
 (* open: every tree the user holds (the program and every node that dropped out of it) keeps the invariant under
    operations on any of them (fstep); tested by the correspondence check only *)
 Definition C09_forest_statement : Prop := forall ops fs,
